@@ -118,7 +118,10 @@ def rtu_task_pass(ctx):
 
 
 def run(ctx):
-    if not srv.prepare(ctx):
+    if not srv.prepare(ctx, ['ReaderLoop.v']):
+        return
+    if ctx.replay and 'stream_cases' in ctx.replay:
+        srv.replay_streams(ctx)
         return
     if ctx.replay and 'cases' in ctx.replay:
         cases = [srv.case_from_json(c) for c in ctx.replay['cases']]
@@ -136,6 +139,14 @@ def run(ctx):
         extra['rtu-unknown-function-sessions'] = rtu_unknown_function(ctx)
         extra.update(command_pass(ctx))
         extra.update(rtu_task_pass(ctx))
+        r = ctx.rng
+        n = 240 if ctx.quick() else 2400
+        sc = [srv.gen_stream_case(r, 'tcp' if r.random() < 0.65 else 'rtu', auth=(srv.gen_auth(r) if r.random() < 0.1 else None)) for _ in range(n)]
+        res = srv.stream_pass(ctx, sc, 'replies', 'correspondence:byte-stream-delivery:reply-bytes', 'server.byte-stream')
+        big = sum(1 for _, s in sc if sum(len(x) // 2 for x in s if not x.startswith('@')) > 260)
+        cmds = sum(1 for _, s in sc if any(x.startswith('@') for x in s))
+        ctx.oblige('byte-stream-cases-reach-expected-classes', big >= 30 and cmds >= 30, f'{big} streams above 260 bytes, {cmds} with commands between chunks')
+        extra.update({'byte-streams': n, 'byte-streams:above-260-bytes': big, 'byte-streams:commands-between-chunks': cmds})
         if not ctx.quick():
             extra['loopback-tcp-sessions'] = loopback_pass(ctx, cases, both)
     cl = srv.coverage(ctx, cases, impl,
